@@ -365,7 +365,7 @@ class Ref:
         r.cur['conf'] = sorted(r.confids())
         r.steps.append(r.cur)
 
-    def interpret(r, history, pend=0):
+    def interpret(r, history, pend=0, cancel_end=False):
         """External events are fed the way the driver feeds them: when the machine is idle (both queues empty),
         the next scripted event plus `pend` more are appended to the external queue."""
         r.start()
@@ -382,6 +382,8 @@ class Ref:
                     if hist: r.eq.append(hist.popleft())
             evn = r.eq.popleft()
             r.external(evn)
+        if r.running and cancel_end:
+            r.running = False         # cancel() once the history is through: every active state runs its exit handlers (reverse document order)
         if not r.running:
             r.complete()
         r.finished = not r.running
